@@ -5,7 +5,7 @@ import U3.Model.Resp
 
 ```
 resp <wire> <seg> <ce> <cl> <te> <close> <status> <head> <enforce> <decode> <preload> <calls>
-   -> one token per call (`rd=68656c`, `st=6865/6c`, `E:ProtocolError`, …) then
+   -> one token per call (`rd=68656c`, `st=6865/6c`, `dc` for drain_conn(), `E:ProtocolError`, …) then
       `| fp=… rel=… sock=… lr=… tell=…`
 dec <ce> <piece/piece/…>      -> the decoder's output per piece, then `fl=…`
 inthex <bytes>                -> ok n | neg | ValueError
@@ -54,6 +54,7 @@ def showExc : Exc → String
 inductive Call
   | read (a : Option Nat) | read1 (a : Option Nat) | readinto (k : Nat)
   | stream (a : Option Nat) | readChunked (a : Option Nat) | iter | data
+  | drain                    -- `drain_conn()`: returns nothing (token `dc`)
   | loop (c : Call)          -- repeat a read-family call until it returns b"" (harness-side loop)
 
 def amt? (s : String) : Option (Option Nat) := if s == "~" then some none else s.toNat?.map some
@@ -69,6 +70,7 @@ def call1? (tok : String) : Option Call :=
   | "rc" => (amt? rest).map .readChunked
   | "it" => some .iter
   | "da" => some .data
+  | "dc" => some .drain
   | _ => none
 
 def call? (tok : String) : Option Call :=
@@ -111,6 +113,9 @@ def runCall (cfg : Cfg CD) (dc : Bool) (r : St) : Call → (String × Bool) × S
   | .iter => let (g, r) := iter hSrc cdDec cfg r; (showGen "it" g, r)
   | .data => match data hSrc cdDec cfg r with
     | (.ok d, r) => (("da=" ++ showBytes d, false), r)
+    | (.error e, r) => (("E:" ++ showExc e, true), r)
+  | .drain => match drainConn hSrc cdDec cfg r with
+    | (.ok _, r) => (("dc", false), r)
     | (.error e, r) => (("E:" ++ showExc e, true), r)
 
 def runCalls (cfg : Cfg CD) (dc : Bool) : List Call → St → List String → List String × St × Bool
